@@ -461,6 +461,11 @@ class Engine:
             st.assume(zbool(I.truthy(self.eval_spec(I, r, fr, {}))))
         if not st.feasible():
             raise PathEnd()
+        # definitional preconditions  target := value of expr  (each must be implied by a listed `requires` clause of the
+        # form target == expr; keeps the rope structure of byte strings the function is about to take apart)
+        for tgt, expr in (c.get("entry_defs") or {}).items():
+            from .loops import _assign_def
+            _assign_def(I, fr, tgt, self.eval_spec(I, expr, fr, {}))
         fr.entry_heap = st.snapshot()
         fr.entry_locals = dict(fr.locals)
         fr.entry_ghost = dict(st.ghost)
